@@ -2,12 +2,12 @@
    list, prod, unit, sumbool map to OCaml's; Z/positive/N/nat stay inductive.
    No Extract Constant. *)
 From Coq Require Import Extraction ExtrOcamlBasic ZArith List.
-From Corro Require Import Lib.Ivl Model.Chunk Model.Book Model.SeqRows Model.BookOps Model.Needs Model.Members Lib.Utf8 Model.Pack Model.Wire Model.WireDescs Model.Ingest Model.IngestSched Model.ClusterGate Model.Partial Model.Serve Model.LocalTx Model.Crdt Model.Ivm Model.Updates Model.SchemaDiff.
+From Corro Require Import Lib.Ivl Model.Chunk Model.Book Model.SeqRows Model.BookOps Model.Needs Model.Members Lib.Utf8 Model.Pack Model.Wire Model.WireDescs Model.Ingest Model.IngestSched Model.ClusterGate Model.Partial Model.Serve Model.LocalTx Model.Crdt Model.Ivm Model.Updates Model.SchemaDiff Model.Authz Gen.Router.
 Extraction Language OCaml.
 Extraction "model.ml"
   Z.add Z.mul Z.sub Z.opp Z.div_eucl Z.of_nat Z.to_nat Z.compare Z.eqb Z.ltb Z.leb
   Chunk.run Chunk.start_cursor Chunk.next Chunk.chunk_range
-  Chunk.wf_input Chunk.check_chunks Chunk.check_chunk_range
+  Chunk.wf_input Chunk.check_chunks Chunk.check_chunk_range Chunk.rtiles_b Chunk.sizes_ok_b
   Ivl.ins Ivl.rem Ivl.gaps Ivl.overlapping Ivl.get Ivl.memb Ivl.canonicalb Ivl.ins_all Ivl.rem_all
   Book.insert_db Book.insert_partial Book.contains_version Book.contains Book.contains_all
   Book.sync_actor Book.from_conn Book.inv_b Book.is_complete Book.fully_buffered
@@ -25,4 +25,5 @@ Extraction "model.ml"
   Crdt.merge Crdt.merge_all Crdt.table Crdt.versions
   Ivm.eval Ivm.m_init Ivm.handle_candidates Ivm.cands_of Ivm.diff_ok
   Updates.urun Updates.u_init Updates.recv Updates.flush Updates.fate_ok
-  SchemaDiff.exec SchemaDiff.insert_row SchemaDiff.find_dtab SchemaDiff.default_val.
+  SchemaDiff.exec SchemaDiff.insert_row SchemaDiff.find_dtab SchemaDiff.default_val
+  Authz.api_serve Authz.all_guarded Router.api_router Router.authz_malformed_is_absent.
